@@ -61,7 +61,7 @@ CLAIMS = {
        "gap-threshold clusters with the duration / area / channel cuts and all peak fields, area conservation of the "
        "hits->peaks->sum_waveform chain, store_downsampled_waveform (smallest fitting factor, block sums, only a fractional tail "
        "dropped), merge_peaks, replace_merged, tiling of split peaks by both split finders (also on down-sampled parents), sum_waveform "
-       "on split children, index_of_fraction against its defining formula. One helper is proved deductively for all inputs: "
+       "on split children, index_of_fraction and highest_density_region against their defining formulas. One helper is proved deductively for all inputs: "
        "symmetric_moving_average returns the mean of a[max(0,i-w)..min(n-1,i+w)] for every waveform and wing width (prefix-sum ghost "
        "function over the reals). Known finding F10 (overlap after a max_duration cut) is reported as KNOWN-FINDING.",
   note="The level is 'exploration', not 'proof': only one function is under contract (the peak kernels are growing_result generators "
@@ -79,7 +79,8 @@ CLAIMS = {
   note="Also proved: Context.get_iter plans the request and filters every chunk with exactly the selection / columns / time_selection "
        "the caller passed and the absolute time range computed from the request (none re-bound on the way); "
        "Context.estimate_run_start_and_end returns whole seconds (the first chunk's start floored to the second when inferred from "
-       "data). Bounded stand-ins only (never counted as proved): selection strings / callables (numexpr), keep / drop columns, the "
+       "data); Context.to_absolute_time_range takes a row's end from strax.endtime; StorageBackend._read_and_format_chunk cuts every "
+       "stored chunk - also a row-less one - to a given range; check_cache saves nothing under a time range / selection / projection. Bounded stand-ins only (never counted as proved): selection strings / callables (numexpr), keep / drop columns, the "
        "seconds conversion, and Context.get_array on stored data against the filtered full result (both processors, rechunked "
        "layouts, no-chunk error, nothing saved by a partial request). Boolean-mask indexing is a trusted library model.",
   technique="contract-based deductive verification (modular: Chunk.split contract at call sites; lemma over the contracts)",
@@ -146,7 +147,8 @@ CLAIMS = {
        "throws a failure (or, when the consumer closes the iterator, an OutsideException) into the processor's generator before it "
        "ends. This is the safety half only.",
   note="'every pipeline thread terminates', 'never hangs' and 'terminates when the capacity exceeds the largest lag' are liveness "
-       "properties this family cannot decide; the level is therefore 'other', not 'proof'. ThreadedMailboxProcessor.iter assigns into "
+       "properties this family cannot decide; the level is therefore 'other', not 'proof'. Structural (AST) obligations on divide_outputs include that a failure while "
+       "closing one output kills all outputs (failed on the pinned tree: defect F24, fixed). ThreadedMailboxProcessor.iter assigns into "
        "a tuple when a GeneratorExit reaches it directly (observation F9; not reachable through Context.get_iter): the contract allows "
        "that TypeError.",
   technique="contract-based deductive verification of exceptional postconditions (ghost flags for kill/close calls) + structural obligations",
